@@ -459,6 +459,27 @@ class Desugar(ast.NodeTransformer):
         it = node.iter
         if isinstance(it, ast.Name) and isinstance(self.consts.get(it.id), (ast.Tuple, ast.List)):
             it = self.consts[it.id]           # a module-level tuple of names
+        # for a, b in (('f', x), ('g', y)): unroll over the literal tuples (each name substituted)
+        if isinstance(node.target, ast.Tuple) and isinstance(it, (ast.Tuple, ast.List)) and it.elts and \
+                len(it.elts) <= 12 and not node.orelse and all(isinstance(t, ast.Name) for t in node.target.elts) and \
+                all(isinstance(e, (ast.Tuple, ast.List)) and len(e.elts) == len(node.target.elts) and
+                    all(isinstance(c, ast.Constant) for c in e.elts) for e in it.elts) and \
+                not any(isinstance(x, (ast.Break, ast.Continue)) for s in node.body for x in ast.walk(s)) and \
+                any(isinstance(x, ast.Call) and isinstance(x.func, ast.Name) and x.func.id in ('setattr', 'getattr')
+                    for s in node.body for x in ast.walk(s)):
+            out = []
+            for e in it.elts:
+                for s in node.body:
+                    s2 = copy.deepcopy(s)
+                    for t, c in zip(node.target.elts, e.elts):
+                        s2 = _SubstName(t.id, c).visit(s2)
+                    out.append(s2)
+            self.changed = True
+            res = []
+            for s in out:
+                r = self.visit(s)
+                res.extend(r if isinstance(r, list) else [r])
+            return res
         if isinstance(node.target, ast.Name) and isinstance(it, (ast.Tuple, ast.List)) and it.elts and \
                 len(it.elts) <= 40 and not node.orelse and \
                 all(isinstance(e, ast.Constant) and isinstance(e.value, str) for e in it.elts) and \
@@ -492,7 +513,7 @@ class Desugar(ast.NodeTransformer):
 
     def visit_Call(self, node):
         self.generic_visit(node)
-        if isinstance(node.func, ast.Name) and node.func.id == 'getattr' and len(node.args) == 2 and \
+        if isinstance(node.func, ast.Name) and node.func.id == 'getattr' and len(node.args) in (2, 3) and \
                 not node.keywords and isinstance(node.args[1], ast.Constant) and \
                 isinstance(node.args[1].value, str) and node.args[1].value.isidentifier():
             self.changed = True
